@@ -140,6 +140,7 @@ pub mod q {
     remove_ops!(rm_u8_1, u8, U1, 1, 5);
     remove_ops!(rm_u8_2, u8, U2, 2, 6);
     remove_ops!(rm_u8_5, u8, U5, 5, 9);
+    remove_ops!(rm_u8_7, u8, U7, 7, 11);      // long enough for a "shift the shorter side" variant to move two or more leading elements
     remove_ops!(rm_u64_4, u64, U4, 4, 8);
     remove_ops!(rm_w24_3, [u64; 3], U3, 3, 7);
     remove_ops!(rm_unit_3, (), U3, 3, 7);
